@@ -206,13 +206,14 @@ theorem offHead_frag {zs : Str} {o : Option Int} (hz : TzFrag zs o) : OffHead zs
 
 theorem parseOffset_frag (e : Env) {v : Str} {i : Nat} {zs : Str} {o : Option Int} (hz : TzFrag zs o)
     (h : Sfx v i zs) : parseOffset e ⟨v, i⟩ = some (o, ⟨v, v.length⟩) := by
-  rcases hz with ⟨rfl, rfl⟩ | ⟨rfl, rfl⟩ | ⟨sg, hs, ms, hh, mm, hsg, h1, h2, _, rfl, rfl⟩
+  rcases hz with ⟨rfl, rfl⟩ | ⟨rfl, rfl⟩ | ⟨sg, hs, ms, hh, mm, hsg, h1, h2, hrange, rfl, rfl⟩
   · exact parseOffset_none e h
   · exact parseOffset_Z e h
   · obtain ⟨rfl, hh100⟩ := twoDigits_zpad h1
     obtain ⟨rfl, mm100⟩ := twoDigits_zpad h2
     have hc : sg = '-' ∨ sg = '+' := hsg.symm
-    rw [parseOffset_signed e sg hc hh100 mm100 (by simpa using h)]
+    have mm59 : mm ≤ 59 := by omega
+    rw [parseOffset_signed e sg hc hh100 mm59 (by simpa using h)]
     rcases hsg with rfl | rfl
     · have : ('+' : Char) ≠ '-' := by decide
       simp only [this, if_false]
